@@ -6,9 +6,6 @@
 //     captured.  -> hex of the text it wrote ("-" if nothing), "bad-op" for an unknown CPU.
 //     Used by the oracle: a listing line's text must be what the formatter prints for exactly the bytes shown on
 //     it, so whatever the disassembler read beyond them (zero here) must not matter.
-// lstmarks <opts> <hex source> [<hex include-file-name> <hex include-file-content>]...
-//     two-pass assembly as `prog`; -> st=<0|1> marks=<addr:v,v,v;...> where v is the raw debug_line value of every
-//     address whose marker is not DL_EMPTY (decimal, runs grouped) -- the per-address marks of the listing model.
 #ifndef NV_CMD_LISTING_H
 #define NV_CMD_LISTING_H
 
@@ -41,107 +38,9 @@ static std::string cmd_lstiso(const std::vector<std::string> &args)
   return tohex(out);
 }
 
-static std::string dump_marks(Memory *memory)
-{
-  std::vector<MemoryPage *> pages;
-  for (MemoryPage *p = memory->pages; p != nullptr; p = p->next) { pages.push_back(p); }
-  std::sort(pages.begin(), pages.end(), [](MemoryPage *a, MemoryPage *b) { return a->address < b->address; });
-  std::string out;
-  char buf[40];
-  bool open = false;
-  uint64_t next = 0;
-  for (MemoryPage *p : pages)
-  {
-    for (uint32_t off = 0; off < PAGE_SIZE; off++)
-    {
-      int dl = p->debug_line[off];
-      if (dl == DL_EMPTY) { open = false; continue; }
-      uint64_t a = (uint64_t)p->address + off;
-      if (!open || a != next)
-      {
-        if (!out.empty()) { out += ";"; }
-        snprintf(buf, sizeof(buf), "%llx:", (unsigned long long)a);
-        out += buf;
-        open = true;
-      }
-      else
-      {
-        out += ",";
-      }
-      snprintf(buf, sizeof(buf), "%d", dl);
-      out += buf;
-      next = a + 1;
-    }
-  }
-  return out.empty() ? "-" : out;
-}
-
-static std::string cmd_lstmarks(const std::vector<std::string> &args)
-{
-  if (args.size() < 2) { return "bad-op"; }
-  const std::string &opts = args[0];
-  std::string source = unhex(args[1]);
-  char dir[] = "/tmp/nvlstXXXXXX";
-  bool have_dir = false;
-  std::vector<std::string> files;
-  if (args.size() > 2)
-  {
-    if (mkdtemp(dir) == NULL) { return "bad-op"; }
-    have_dir = true;
-    for (size_t i = 2; i + 1 < args.size(); i += 2)
-    {
-      std::string path = std::string(dir) + "/" + unhex(args[i]);
-      FILE *f = fopen(path.c_str(), "wb");
-      if (f != NULL)
-      {
-        std::string c = unhex(args[i + 1]);
-        fwrite(c.data(), 1, c.size(), f);
-        fclose(f);
-        files.push_back(path);
-      }
-    }
-  }
-  AsmContext *ctx = new AsmContext();
-  ctx->quiet_output = 1;
-  if (opts.find('o') != std::string::npos) { ctx->optimize = 1; }
-  if (have_dir) { include_add_path(ctx, dir); }
-  FILE *src_fp = tmpfile();
-  if (src_fp == NULL) { delete ctx; return "bad-op"; }
-  fwrite(source.data(), 1, source.size(), src_fp);
-  fflush(src_fp);
-  fseek(src_fp, 0, SEEK_SET);
-  ctx->tokens.in = src_fp;
-  ctx->tokens.filename = "lstmarks";
-  ctx->init();
-  int error_flag = ctx->assemble();
-  do
-  {
-    if (error_flag == 0 && ctx->link() != 0) { error_flag = 1; }
-    if (error_flag != 0) { break; }
-    ctx->symbols.lock();
-    ctx->symbols.scope_reset();
-    ctx->pass = 2;
-    ctx->init();
-    error_flag = ctx->assemble();
-    if (error_flag != 0) { break; }
-    if (ctx->link() != 0) { error_flag = 1; break; }
-  } while (0);
-  std::string printed = capture_take();
-  char head[64];
-  snprintf(head, sizeof(head), "st=%d err=%d", error_flag == 0 ? 0 : 1, count_errors(printed));
-  std::string out = head;
-  out += " marks=" + dump_marks(&ctx->memory);
-  if (ctx->tokens.in != NULL) { fclose(ctx->tokens.in); ctx->tokens.in = NULL; }
-  delete ctx;
-  for (auto &f : files) { unlink(f.c_str()); }
-  if (have_dir) { rmdir(dir); }
-  return out;
-}
-
 static void register_listing()
 {
   handlers["lstiso"] = cmd_lstiso;
-  handlers["lstmarks"] = cmd_lstmarks;
 }
 
 #endif
